@@ -7,6 +7,7 @@ private scratch directory build/C18/tmp (created and removed per run), with ever
 the library tracked (--wrap) and every loaded buffer compared with the file when it is freed."""
 import os
 import shutil
+import time
 import vf
 
 PID = "C18"
@@ -21,12 +22,37 @@ WRAP = "-Wl," + ",".join("--wrap=" + f for f in
 def build(ck):
     ck.forbid_scan()
     ck.build_proofs(PROP_MODULES, driver="drv_c18")
-    h = ck.cc(os.path.join(ck.bdir, "h"), [os.path.join(vf.HARNESS, PID, "h.c")] + REPO_SRCS,
+    # per-run harness binary and scratch directory: several runs of this check (other seeds,
+    # scratch copies of the repository) may be going on at the same time in the same build/C18
+    tag = "%d" % os.getpid()
+    root = os.path.join(ck.bdir, "tmp")
+    os.makedirs(root, exist_ok=True)
+    now = time.time()
+    for name in os.listdir(ck.bdir):          # leftovers of runs that died: older than 6 hours
+        path = os.path.join(ck.bdir, name)
+        if name.startswith("h-") and now - os.path.getmtime(path) > 6 * 3600:
+            try:
+                os.remove(path)
+            except OSError:
+                pass
+    for name in os.listdir(root):
+        path = os.path.join(root, name)
+        if now - os.path.getmtime(path) > 6 * 3600:
+            shutil.rmtree(path, ignore_errors=True)
+    h = ck.cc(os.path.join(ck.bdir, "h-" + tag), [os.path.join(vf.HARNESS, PID, "h.c")] + REPO_SRCS,
               flags=[WRAP])
-    tmp = os.path.join(ck.bdir, "tmp")
+    tmp = os.path.join(root, "r" + tag)
     shutil.rmtree(tmp, ignore_errors=True)
-    os.makedirs(tmp)
+    os.makedirs(tmp, exist_ok=True)
     return [h, tmp], [ck.driver_path("drv_c18")]
+
+
+def cleanup(hcmd):
+    shutil.rmtree(hcmd[1], ignore_errors=True)
+    try:
+        os.remove(hcmd[0])
+    except OSError:
+        pass
 
 
 def hx(b):
@@ -501,11 +527,11 @@ def run(ck):
     for c in (pc[0], pc[1], cc[0], rc[0]):
         ck.sample(c[:10])
     ck.cov["op_histogram"] = hist
-    shutil.rmtree(hcmd[1], ignore_errors=True)
+    cleanup(hcmd)
 
 
 def replay(ck, path):
     hcmd, dcmd = build(ck)
     rc = vf.generic_replay(ck, path, hcmd, dcmd)
-    shutil.rmtree(hcmd[1], ignore_errors=True)
+    cleanup(hcmd)
     return rc
